@@ -1618,3 +1618,86 @@ def rule_transpose_direction_mirror(ctx):
                                 ok, why = False, f"`{nm}` folds the old alteration into the pitch class that is then reduced modulo 12 (E## + dd2 wraps an octave)"
     ctx.check(ok, rule, "alteration arithmetic mirrored between directions", func=f, construct="direction-not-mirrored",
               msg=f"_transpose_note_inplace: {why}: transposing down (or from a note whose alteration crosses the next natural step) gives the wrong alteration")
+
+
+def rule_case_sensitive_callee(ctx, scope, label):
+    """g(<x>.upper()) / g(<x>.lower()) where g decides on letters of the other case: those branches are dead from this call"""
+    rule = "CASE-fold"
+    ctx.rule(rule, "a name is not case-folded as a whole before it is handed to a function that tells its alternatives by letter case: "
+                   "if the callee tests `'m' in name` / `name.count('b')`, no caller passes `<expr>.upper()`")
+    inf = world(ctx).inf
+    n = 0
+    fs = []
+    for x in scope:
+        fs.extend(ctx.prog.functions_in(x) if isinstance(x, str) else [x])
+    for f in fs:
+        for c in own_nodes(f.node):
+            if not (isinstance(c, ast.Call) and c.args):
+                continue
+            a = c.args[0]
+            if not (isinstance(a, ast.Call) and isinstance(a.func, ast.Attribute) and a.func.attr in ("upper", "lower") and not a.args):
+                continue
+            tg = [t for t in inf.callee(f, c) if t[0] == "func"]
+            if len(tg) != 1:
+                continue
+            g = tg[0][1]
+            if not g.params:
+                continue
+            p0 = g.params[0]
+            lits = set()
+            for x in ast.walk(g.node):
+                if isinstance(x, ast.Compare) and len(x.ops) == 1 and isinstance(x.ops[0], (ast.In, ast.NotIn)) and isinstance(x.left, ast.Constant) \
+                        and isinstance(x.left.value, str) and norm(x.comparators[0]) == p0:
+                    lits.add(x.left.value)
+                if isinstance(x, ast.Call) and isinstance(x.func, ast.Attribute) and x.func.attr in ("count", "startswith", "endswith", "find") \
+                        and norm(x.func.value) == p0 and x.args and isinstance(x.args[0], ast.Constant) and isinstance(x.args[0].value, str):
+                    lits.add(x.args[0].value)
+            n += 1
+            lost = sorted(l for l in lits if l.isalpha() and (l.islower() if a.func.attr == "upper" else l.isupper()))
+            ctx.check(not lost, rule, f"{f.qname}: `{norm(c)[:50]}`", func=f, node=c, construct=f"case-folded-argument:{g.name}",
+                      msg=f"`{norm(c)[:70]}` passes a name folded to {a.func.attr} case to {g.name}, which recognises {lost} by case: those alternatives can never be "
+                          f"taken from here (flat and minor key names are read as natural major keys)")
+    ctx.ok(rule, f"{label}: {n} call(s) with a case-folded first argument")
+
+
+def rule_keyname_pattern_guard(ctx):
+    rule = "F5-keyname"
+    ctx.rule(rule, "MatchKeySignature._parse_key_signature: the groups of the older-format pattern are interpreted only when the mode "
+                   "group is a mode word — the 1.0.0 names written by fifths_mode_to_key_name ('Am', 'Bb', 'F#m') also match that "
+                   "pattern, with the 'm' or 'b' in the mode group")
+    f = ctx.prog.func("partitura.io.matchfile_utils:MatchKeySignature._parse_key_signature", rule)
+    tests = [i for i in own_nodes(f.node) if isinstance(i, ast.If) and any(isinstance(c, ast.Compare) and any(isinstance(k, ast.Constant) and k.value is None for k in c.comparators)
+                                                                             for c in ast.walk(i.test))]
+    ctx.require(len(tests) >= 1, rule, f.qname, "pattern-match test not found")
+    t = tests[0].test
+    words = {c.value.lower() for c in ast.walk(t) if isinstance(c, ast.Constant) and isinstance(c.value, str)}
+    ok = {"min", "maj"} <= words or {"minor", "major"} <= words
+    ctx.check(ok, rule, f"`{norm(t)[:50]}`", func=f, node=tests[0], construct="old-pattern-unguarded",
+              msg=f"the branch for the older key-signature formats is taken whenever the pattern matches (`{norm(t)[:60]}`): 'Am' matches with mode group 'm' and is read "
+                  f"as A major, 'Bb' with mode group 'b' as B major")
+
+
+def rule_tuplet_ratio_rounded(ctx):
+    rule = "F10-tuplet"
+    ctx.rule(rule, "estimate_symbolic_duration: the number of actual notes of a guessed tuplet is a float quotient that the search loop "
+                   "has brought within eps of a whole number — it is converted with round (never ceil / floor / int alone), and the "
+                   "loop measures the distance to the nearest whole number (not `% 1`, which a value just below a whole number fails)")
+    f = ctx.prog.func("partitura.utils.music:estimate_symbolic_duration", rule)
+    defs = local_defs(f)
+    vals = [v for d in ast.walk(f.node) if isinstance(d, ast.Dict) for k, v in zip(d.keys, d.values) if isinstance(k, ast.Constant) and k.value == "actual_notes"]
+    ctx.require(len(vals) >= 1, rule, f.qname, "actual_notes entry not found")
+    for v in vals:
+        e = resolve_alias(v, defs)
+        calls = {norm(c.func) for c in ast.walk(e) if isinstance(c, ast.Call)}
+        trunc = calls & {"math.ceil", "np.ceil", "math.floor", "np.floor", "math.trunc"}
+        rounded = bool(calls & {"round", "np.round", "np.rint"})
+        bare_int = isinstance(e, ast.Call) and norm(e.func) == "int" and not rounded
+        ctx.check(rounded and not trunc and not bare_int, rule, f"actual_notes = `{norm(e)[:40]}`", func=f, node=v, construct="tuplet-ratio-not-rounded",
+                  msg=f"`{norm(e)[:70]}` turns the float quotient into the number of actual notes with {sorted(trunc) or 'int()'}: 28.000000000000004 becomes 29 and the "
+                      f"symbolic duration no longer evaluates to the note's duration")
+    loops = [w for w in own_nodes(f.node) if isinstance(w, ast.While) and any(isinstance(c, ast.AugAssign) for c in ast.walk(w))]
+    for w in loops:
+        mod1 = any(isinstance(b, ast.BinOp) and isinstance(b.op, ast.Mod) and isinstance(b.right, ast.Constant) and b.right.value == 1 for b in ast.walk(w.test))
+        ctx.check(not mod1, rule, f"search loop test `{norm(w.test)[:40]}`", func=f, node=w, construct="tuplet-search-modulo-one",
+                  msg=f"`{norm(w.test)[:60]}` accepts a quotient only slightly *above* a whole number; one slightly below (27.999999) keeps the search going to a "
+                      f"needlessly large ratio")
